@@ -304,7 +304,7 @@ fn cmd_check_inner(m: &HashMap<String, String>) -> i32 {
             }
         }
         let v = mo.violation.as_ref().unwrap();
-        println!("violation in run {} of seed {}: {} at step {} ({}): {}", found.run, seed, tok::class_name(v.class), v.step as i64, mo.viol_op.map(|o| o.name()).unwrap_or("quiescence"), v.detail);
+        println!("violation in run {} of seed {}: {} at step {} ({}): {}", found.run, seed, tok::class_name(v.class), if v.step == u32::MAX { "end-of-run".to_string() } else { v.step.to_string() }, mo.viol_op.map(|o| o.name()).unwrap_or("quiescence"), v.detail);
         println!("minimised {} -> {} operations ({} candidates); container {}", found.plan.ops.len(), mp.ops.len(), tried, kind_name(mp.kind));
         println!("VIOLATION property=C18 replay={}", min_path);
         viol_json = J::obj(vec![("run", J::i(found.run as i64)), ("replay", J::s(min_path.clone())), ("violation", violation_to_json(v, mo.viol_op)), ("minimised_plan", plan_to_json(&mp))]);
